@@ -562,8 +562,49 @@ fn update_family<T: ColumnType + 'static>(case: &Value) -> Value {
     v
 }
 
+/// family "testdir": two runners alive at once; what `$__TEST_DIR__` expands to (C13)
+fn testdir_family(_case: &Value) -> Value {
+    let script = "control substitution on\n\nstatement ok\nA $__TEST_DIR__\n\nstatement ok\nB $__TEST_DIR__\n\nsystem ok\necho $__TEST_DIR__\n";
+    let mk = || {
+        let shared = Arc::new(Mutex::new(Shared::default()));
+        let runner = Runner::new(MockMaker::<DefaultColumnType>::new(shared.clone()));
+        (shared, runner)
+    };
+    let dirs_of = |shared: &Arc<Mutex<Shared>>| -> Vec<String> {
+        shared.lock().unwrap().events.iter().filter_map(|e| {
+            let a = e.as_array()?;
+            match a[0].as_str()? {
+                "sql" => Some(a[2].as_str()?[2..].to_string()),
+                "cmd" => Some(a[3].as_str()?[5..].to_string()),
+                _ => None,
+            }
+        }).collect()
+    };
+    let (s1, mut r1) = mk();
+    let (s2, mut r2) = mk();
+    set_current(Some(s1.clone()));
+    let ok1 = r1.run_script(script).is_ok();
+    set_current(Some(s2.clone()));
+    let ok2 = r2.run_script(script).is_ok();
+    set_current(None);
+    let d1 = dirs_of(&s1);
+    let d2 = dirs_of(&s2);
+    let same1 = d1.len() == 3 && d1.iter().all(|d| d == &d1[0]);
+    let same2 = d2.len() == 3 && d2.iter().all(|d| d == &d2[0]);
+    let distinct = !d1.is_empty() && !d2.is_empty() && d1[0] != d2[0];
+    let exist_alive = d1.iter().chain(d2.iter()).all(|d| std::path::Path::new(d).is_dir());
+    drop(r1);
+    let gone1 = !d1.is_empty() && !std::path::Path::new(&d1[0]).exists();
+    let still2 = !d2.is_empty() && std::path::Path::new(&d2[0]).is_dir();
+    drop(r2);
+    let gone2 = !d2.is_empty() && !std::path::Path::new(&d2[0]).exists();
+    json!({"ok": ok1 && ok2, "same_within_runner": same1 && same2, "distinct_between_runners": distinct,
+           "exist_while_alive": exist_alive, "removed_on_drop": gone1 && gone2, "other_survives_drop": still2})
+}
+
 fn dispatch(family: &str, case: &Value) -> Value {
     match family {
+        "testdir" => testdir_family(case),
         "update" => {
             if case.get("coltype").and_then(|s| s.as_str()) == Some("two") {
                 update_family::<TwoType>(case)
@@ -624,7 +665,7 @@ fn main() {
     std::fs::create_dir_all(&td).unwrap();
     std::env::set_var("TMPDIR", &td);
     let re_testdir = regex::Regex::new(&format!("{}/\\.tmp[A-Za-z0-9]{{6}}", regex::escape(&td))).unwrap();
-    let re_now = regex::Regex::new(r"\b1[0-9]{18}\b").unwrap();
+    let re_now = regex::Regex::new(r"1[78][0-9]{17}").unwrap();
     let stdin = std::io::stdin();
     let stdout = std::io::stdout();
     let mut w = std::io::BufWriter::new(stdout.lock());
